@@ -53,8 +53,11 @@ EndClause(r) ==
   ELSE IF Vals(r.reduced) # want THEN "reduce-is-not-the-left-fold"
   ELSE "none"
 
+TwinClause(r) == IF SameBag(SeqSet(r.st), Reduce(r.stream, P)) /\ Cardinality(Ids(SeqSet(r.st))) = Len(r.st) THEN "none"
+                 ELSE "twin-bucket-differs-from-heartbeat_reduce"
 Clause(r) ==
   CASE r.op = "merge"  -> MergeClause(r)
+    [] r.op = "twin"   -> TwinClause(r)
     [] r.op = "reduce" -> ReduceClause(r)
     [] r.op = "start"  -> "none"
     [] r.op = "hb"     -> HbClause(r)
